@@ -3,7 +3,7 @@
    outcome), so "no panic" is a statement about the Go code and is tied by correspondence; what is
    proved here is the allocation bound of the decoding discipline. *)
 From JamV Require Import Base.Bytes Model.NatCodec Model.Codec Model.JamTypes
-  Proofs.CodecP Proofs.CodecAllocP Proofs.JamTypesP.
+  Proofs.CodecP Proofs.CodecAllocP Proofs.CodecFastP Proofs.JamTypesP.
 Local Open Scope N_scope.
 
 (* the decoder that compares every declared count with the remaining input allocates at most
@@ -57,6 +57,11 @@ Print Assumptions C14_frame_alloc_unchecked_refuted.
 Theorem C14_protocol_descriptors_wf : forall p, pL p < two64 -> forallb wf_desc (all_descs p) = true.
 Proof. exact all_descs_wf. Qed.
 Print Assumptions C14_protocol_descriptors_wf.
+
+(* the extracted decoder run against the Go code is the decoder whose account is bounded above *)
+Theorem C14_extracted_decoder : forall d bs, decf d bs = dec d bs.
+Proof. exact decf_eq. Qed.
+Print Assumptions C14_extracted_decoder.
 
 (* ---- non-vacuity: the constants of some real types, and accounts on concrete inputs ---- *)
 Example C14_ex_consts :
